@@ -46,7 +46,7 @@ def generate(rng):
     prim = gen_primary(rng, "p0", kinds=STOCK_KINDS + ["TapePrimary", "CIRRate", "VasicekRate"],
                        dtypes=(None, None, "float32", "float64"))
     pkind = prim["kind"]
-    steps = rng.choice([2, 3, 4, 5, 6, 8, 11])
+    steps = rng.nsteps([2, 3, 4, 5, 6, 8, 11])
     if pkind in ("CIRRate", "VasicekRate"):
         dk = ["EuropeanOption", "LookbackOption", "EuropeanBinaryOption"]
     else:
@@ -68,7 +68,7 @@ def generate(rng):
     m0, h0 = gen_hedger(rng, "h0", "m0", d, pkind, H=H, listed=bool(d.get("listed")), kinds=kinds, state=False, crit="c0")
     m1, h1 = gen_hedger(rng, "h1", "m1", d, pkind, H=H, listed=bool(d.get("listed")), kinds=kinds, state=True, crit="c0")
     world = {"primaries": [prim], "derivatives": derivs, "models": [m0, m1], "criteria": crits, "hedgers": [h0, h1]}
-    n0 = rng.choice([1, 2, 3, 5, 8])
+    n0 = rng.npaths([1, 2, 3, 5, 8])
     ops = [{"op": "simulate", "target": "d0", "n_paths": n0, "torch_seed": rng.seed31()}]
     fault_rate = rng.choice([0.0, 0.3, 0.6])
     for _ in range(rng.randint(2, 8)):
